@@ -167,6 +167,10 @@ func (p c16) whenStacked(c *core.Ctx) {
 		{"uses+own-container", "leaf o { type int32; } leaf p { type int32; } grouping gg { container g { when \"../p>5\"; leaf z { type string; } } } uses gg { when \"o>5\"; } leaf q { type string; }"},
 		{"uses+own-list", "leaf o { type int32; } leaf p { type int32; } grouping gg { list g { when \"../p>5\"; key z; leaf z { type string; } } } uses gg { when \"o>5\"; } leaf q { type string; }"},
 		{"augment+own-container", "container k { leaf o { type int32; } leaf p { type int32; } } augment \"/k\" { when \"o>5\"; container g { when \"../p>5\"; leaf z { type string; } } } leaf q { type string; }"},
+		{"choice+case", "leaf o { type int32; } leaf p { type int32; } choice ch { when \"o>5\"; case a { when \"p>5\"; leaf g { type string; } } } leaf q { type string; }"},
+		{"choice+own", "leaf o { type int32; } leaf p { type int32; } choice ch { when \"o>5\"; leaf g { when \"p>5\"; type string; } } leaf q { type string; }"},
+		{"case+uses", "leaf o { type int32; } leaf p { type int32; } grouping gg { leaf g { type string; } } choice ch { case a { when \"o>5\"; uses gg { when \"p>5\"; } } } leaf q { type string; }"},
+		{"uses-choice+own", "leaf o { type int32; } leaf p { type int32; } grouping gg { choice ch { leaf g { when \"p>5\"; type string; } } } uses gg { when \"o>5\"; } leaf q { type string; }"},
 		{"augment+own", "container k { leaf o { type int32; } leaf p { type int32; } } augment \"/k\" { when \"o>5\"; leaf g { when \"p>5\"; type string; } } leaf q { type string; }"},
 	} {
 		m, err := parser.LoadModuleFromString(nil, "module m { namespace \"urn:m\"; prefix m; revision 2020-01-01; "+sc.body+" }")
